@@ -71,18 +71,20 @@ Proof.
 Qed.
 
 Variables (W : list T -> list T -> list T -> list V) (W' : list T' -> list T' -> list T' -> list V').
-(** the per-window method is only required to respect the relation on non-empty slices *)
-Hypothesis HW : forall o o' h h' f f', o <> [] -> h <> [] -> f <> [] ->
+(** admissible window samples (e.g. non-empty; non-degenerate spread): the per-window method is only required to
+    respect the relation on admissible slices *)
+Variables OKo OKh OKf : list T -> Prop.
+Hypothesis HW : forall o o' h h' f f', OKo o -> OKh h -> OKf f ->
   Forall2 RTo o o' -> Forall2 RTh h h' -> Forall2 RTf f f' -> Forall2 RV (W o h f) (W' o' h' f').
 
-(** every window that is used has data in all three series *)
-Definition windows_nonempty (L S : Z) (dA dobs dhist dfut : list Z) (obs hist fut : list T) : Prop :=
+(** every window that is used holds admissible samples of all three series *)
+Definition windows_ok (L S : Z) (dA dobs dhist dfut : list Z) (obs hist fut : list T) : Prop :=
   forall ci, In ci (days_use S dA) ->
-    NP.take obs (days_indices_in_window L dobs (fst ci)) <> [] /\ NP.take hist (days_indices_in_window L dhist (fst ci)) <> [] /\
-    NP.take fut (days_indices_in_window L dfut (fst ci)) <> [].
+    OKo (NP.take obs (days_indices_in_window L dobs (fst ci))) /\ OKh (NP.take hist (days_indices_in_window L dhist (fst ci))) /\
+    OKf (NP.take fut (days_indices_in_window L dfut (fst ci))).
 
-Theorem driver_rw_rel L S dobs dhist dfut obs obs' hist hist' fut fut' :
-  windows_nonempty L S dfut dobs dhist dfut obs hist fut ->
+Theorem driver_rw_rel_ok L S dobs dhist dfut obs obs' hist hist' fut fut' :
+  windows_ok L S dfut dobs dhist dfut obs hist fut ->
   Forall2 RTo obs obs' -> Forall2 RTh hist hist' -> Forall2 RTf fut fut' ->
   orel (Forall2 (orel RV)) (driver_rw V L S dobs dhist dfut obs hist fut W) (driver_rw V' L S dobs dhist dfut obs' hist' fut' W').
 Proof.
@@ -90,8 +92,8 @@ Proof.
   apply HW; try assumption; apply take_rel; assumption.
 Qed.
 
-Theorem driver_dc_rel L S dobs dhist dfut obs obs' hist hist' fut fut' :
-  windows_nonempty L S dobs dobs dhist dfut obs hist fut ->
+Theorem driver_dc_rel_ok L S dobs dhist dfut obs obs' hist hist' fut fut' :
+  windows_ok L S dobs dobs dhist dfut obs hist fut ->
   Forall2 RTo obs obs' -> Forall2 RTh hist hist' -> Forall2 RTf fut fut' ->
   orel (Forall2 (orel RV)) (driver_dc V L S dobs dhist dfut obs hist fut W) (driver_dc V' L S dobs dhist dfut obs' hist' fut' W').
 Proof.
@@ -99,3 +101,28 @@ Proof.
   apply HW; try assumption; apply take_rel; assumption.
 Qed.
 End Rel.
+
+(** the common case: admissible = non-empty *)
+Section NonEmpty.
+Context {T T' V V' : Type}.
+Variables RTo RTh RTf : T -> T' -> Prop.
+Variable RV : V -> V' -> Prop.
+Variables (W : list T -> list T -> list T -> list V) (W' : list T' -> list T' -> list T' -> list V').
+Hypothesis HW : forall o o' h h' f f', o <> [] -> h <> [] -> f <> [] ->
+  Forall2 RTo o o' -> Forall2 RTh h h' -> Forall2 RTf f f' -> Forall2 RV (W o h f) (W' o' h' f').
+Definition nonempty (l : list T) : Prop := l <> [].
+Definition windows_nonempty (L S : Z) (dA dobs dhist dfut : list Z) (obs hist fut : list T) : Prop :=
+  windows_ok nonempty nonempty nonempty L S dA dobs dhist dfut obs hist fut.
+
+Theorem driver_rw_rel L S dobs dhist dfut obs obs' hist hist' fut fut' :
+  windows_nonempty L S dfut dobs dhist dfut obs hist fut ->
+  Forall2 RTo obs obs' -> Forall2 RTh hist hist' -> Forall2 RTf fut fut' ->
+  orel (Forall2 (orel RV)) (driver_rw V L S dobs dhist dfut obs hist fut W) (driver_rw V' L S dobs dhist dfut obs' hist' fut' W').
+Proof. apply (driver_rw_rel_ok RTo RTh RTf RV W W' nonempty nonempty nonempty HW). Qed.
+
+Theorem driver_dc_rel L S dobs dhist dfut obs obs' hist hist' fut fut' :
+  windows_nonempty L S dobs dobs dhist dfut obs hist fut ->
+  Forall2 RTo obs obs' -> Forall2 RTh hist hist' -> Forall2 RTf fut fut' ->
+  orel (Forall2 (orel RV)) (driver_dc V L S dobs dhist dfut obs hist fut W) (driver_dc V' L S dobs dhist dfut obs' hist' fut' W').
+Proof. apply (driver_dc_rel_ok RTo RTh RTf RV W W' nonempty nonempty nonempty HW). Qed.
+End NonEmpty.
